@@ -209,6 +209,34 @@ def m_result_unwrap(eng, st, callee, a, ty):
     return out
 
 
+@model(r"^(?:std::result::)?Result::<.*>::is_ok$")
+def m_result_is_ok(eng, st, callee, a, ty):
+    return one(eng.deref(a[0]).disc == BV(0, 64))
+
+
+@model(r"^(?:std::result::)?Result::<.*>::is_err$")
+def m_result_is_err(eng, st, callee, a, ty):
+    return one(eng.deref(a[0]).disc == BV(1, 64))
+
+
+@model(r"^(?:std::result::)?Result::<.*>::ok$")
+def m_result_ok(eng, st, callee, a, ty):
+    r = a[0]
+    out = []
+    for s2, okk in fork_on(eng, st, r.disc == BV(0, 64)):
+        out.append((mk_option(r.f.get(0)) if okk else mk_option(), None, s2))
+    return out
+
+
+@model(r"^(?:std::result::)?Result::<.*>::unwrap_or$")
+def m_result_unwrap_or(eng, st, callee, a, ty):
+    r, d = a
+    out = []
+    for s2, okk in fork_on(eng, st, r.disc == BV(0, 64)):
+        out.append((r.f.get(0) if okk else d, None, s2))
+    return out
+
+
 @model(r"^Option::<.*>::is_some$")
 def m_is_some(eng, st, callee, a, ty):
     return one(eng.deref(a[0]).disc == BV(1, 64))
